@@ -117,7 +117,7 @@ func (c01Suite) Gen(rng *Rng, tier string, w *bufio.Writer, stats *Stats) {
 		qs   []string
 	}{{"suffix", focusedSuffixShapes()}, {"aggregate", focusedAggregateShapes()}, {"agg-traversal", focusedAggTraversalShapes()},
 		{"collect-membership", focusedCollectMembershipShapes()}, {"path-predicate", focusedPathPredicateShapes()}, {"string-literal", focusedStringLiteralShapes()},
-		{"sort-keyword", focusedSortKeywordShapes()}, {"exact-range", focusedExactRangeShapes()}} {
+		{"sort-keyword", focusedSortKeywordShapes()}, {"exact-range", focusedExactRangeShapes()}, {"double-literal", focusedDoubleLiteralShapes()}, {"limit-boundary", focusedLimitBoundaryShapes()}, {"limit-tail-filter", focusedLimitTailFilterShapes()}} {
 		for _, q := range fam.qs {
 			emitFixedSeed("focused:"+fam.name, q)
 			stats.Inc("focused." + fam.name)
@@ -322,6 +322,11 @@ func (r *c01Runner) Step(t []string, raw string) string {
 	if ferr != nil {
 		r.stats.Inc("format_err")
 		return "err format"
+	}
+	if d := literalTie(res.Statement, sql); d != "" {
+		// the text PostgreSQL gets does not say the numbers the statement holds (harness/littie.go)
+		r.stats.Inc("literal_tie_differs")
+		return "lit-differs " + d + " sql=" + jsonQuote(sql)
 	}
 	return fmt.Sprintf("ok km=%s params=%s cy=%s sql=%s stmt=%s", kindMapSexp(), paramsSexp(res.Parameters), cy, jsonQuote(sql), ToSexp(res.Statement))
 }
